@@ -256,8 +256,12 @@ def gen_schema(rng: random.Random) -> Dict[str, Any]:
             fields.append(leaf_field(used) if rng.random() < 0.7 else comp_field(used, composite_targets))
         iface_defs[itf] = {"name": itf, "kind": "interface", "fields": fields, "interfaces": []}
     obj_defs: List[Dict[str, Any]] = []
+    impl_of = {o: [i for i in ifaces if rng.random() < 0.6] for o in objs}
+    for i in ifaces:  # every interface has at least one implementing object type
+        if not any(i in v for v in impl_of.values()):
+            impl_of[rng.choice(objs)].append(i)
     for o in objs:
-        impl = [i for i in ifaces if rng.random() < 0.6]
+        impl = [i for i in ifaces if i in impl_of[o]]
         used = ["id"]
         fields = [{"name": "id", "ty": {"nn": T_named("ID")}, "args": []}]
         for i in impl:
@@ -828,11 +832,29 @@ def classify(history: List[Dict[str, Any]], op: Dict[str, Any]) -> Dict[str, boo
             shared = True
         if any(j != i and m and c2 == c and a2 == a for j, (c2, a2, m) in enumerate(own)):
             shared = True
-    per_field = []
-    for i, f in enumerate(op["fields"]):
-        per_field.append(set(format_names([n for se, _ in walk_se(f) for n, v in se["args"] if v is not None], i)))
-    clash = any(per_field[i] & per_field[j] for i in range(len(per_field)) for j in range(i + 1, len(per_field)))
-    return {"listArg": list_arg, "deepVars": deep, "pyName": py_name, "sharedMut": shared, "nameClash": clash}
+    return {"listArg": list_arg, "deepVars": deep, "pyName": py_name, "sharedMut": shared, "nameClash": syntactic_clash(op)}
+
+
+def rsel_arg_names(r: Dict[str, Any]) -> List[str]:
+    out = [a[0] for a in r.get("args", [])]
+    for c in r["sels"]:
+        out += rsel_arg_names(c)
+    return out
+
+
+def syntactic_clash(op: Dict[str, Any]) -> bool:
+    """names `_format_variable_name` hands out when the expression is read locally (to_ast order: own arguments,
+    sub-fields, then inline fragments): do two top-level fields get a common one?"""
+    per_field = [set(format_names(rsel_arg_names(expected_rsel(f)), i)) for i, f in enumerate(op["fields"])]
+    return any(per_field[i] & per_field[j] for i in range(len(per_field)) for j in range(i + 1, len(per_field)))
+
+
+def doc_clash(ir: Optional[Dict[str, Any]]) -> bool:
+    """F5 trigger as the Lean side states it: the sent document uses one variable name in two top-level fields"""
+    if not ir or "sels" not in ir:
+        return False
+    per_field = [set(doc_vars([s])) for s in ir["sels"]]
+    return any(per_field[i] & per_field[j] for i in range(len(per_field)) for j in range(i + 1, len(per_field)))
 
 
 # --------------------------------------------------------------------------------------------
@@ -1044,7 +1066,7 @@ def schema_case(root: Path, seed: str, budget: Dict[str, int], fixed: Optional[D
         return out
     tables = {}
     for kind, is_async in (("sync", False), ("async", True)):
-        status, val = engine.forked(_gen_one, str(root), sdl, f"gen_{kind}", is_async, timeout=120)
+        status, val = engine.forked(_gen_one, str(root), sdl, f"gen_{kind}", is_async, timeout=900)
         if status != "ok":
             out["generation"] = {"kind": kind, "status": status, "detail": val}
             return out
@@ -1084,12 +1106,12 @@ def schema_case(root: Path, seed: str, budget: Dict[str, int], fixed: Optional[D
         ops = [{"type": o["type"], "name": o["name"], "exprs": [se_to_expr(f) for f in o["fields"]]} for o in sq["ops"]]
         per_kind: Dict[str, Any] = {}
         for kind, is_async in (("sync", False), ("async", True)):
-            status, val = engine.forked(_run_sequence, f"gen_{kind}", is_async, ops, timeout=60)
+            status, val = engine.forked(_run_sequence, f"gen_{kind}", is_async, ops, timeout=600)
             hist = [analyse(schema_obj, {}, r) for r in val] if status == "ok" else None
             fresh = []
             if kind == "sync" or si % 4 == 0:  # the fresh-process document does not depend on the client flavour; sampled for async
                 for o in ops:
-                    st2, v2 = engine.forked(_run_sequence, f"gen_{kind}", is_async, [o], timeout=60)
+                    st2, v2 = engine.forked(_run_sequence, f"gen_{kind}", is_async, [o], timeout=600)
                     fresh.append(analyse(schema_obj, {}, v2[0]) if st2 == "ok" else {"error": f"harness:{st2}"})
             per_kind[kind] = {"status": status, "hist": hist, "fresh": fresh, "detail": None if status == "ok" else val}
         runs.append(per_kind)
@@ -1372,7 +1394,14 @@ def process_case(ctx: Ctx, res: Result, case: Dict[str, Any], model: Optional[Di
             for k, o in enumerate(ops):
                 a = run["hist"][k]
                 fresh = run["fresh"][k] if run["fresh"] else None
+                if fresh is not None and str(fresh.get("error", "")).startswith("harness:"):
+                    raise common.Infra(f"C14 fresh-process run failed: {fresh['error']}")
                 trig = classify(ops[:k], o)
+                syn_clash = trig["nameClash"]
+                trig["nameClash"] = doc_clash(a.get("ir"))
+                if syn_clash != trig["nameClash"] and not trig["sharedMut"]:
+                    res.mismatches.append(Mismatch("nameClash: names simulated on the expression vs names in the sent document",
+                                                   {**base_input, "client": kind, "sequence": si, "op": k}, trig["nameClash"], syn_clash))
                 inp = {**base_input, "client": kind, "sequence": si, "op": k, "flavour": sq["flavour"],
                        "replay": {"schema": strip_py(case["schema"]), "seqs": [{"flavour": sq["flavour"], "ops": ops[: k + 1]}]}}
                 res.seen([case["seed"], si, k, kind], True)
@@ -1394,7 +1423,8 @@ def process_case(ctx: Ctx, res: Result, case: Dict[str, Any], model: Optional[Di
                     mo = m_hist[k]
                     # DESIGN.md 1.4: a disagreement INSIDE a finding region where the implementation now satisfies the
                     # property is reported as "finding no longer reproduces", not as a broken tie
-                    in_region = next((t for t in TRIGGERS if trig[t]), None) if not judged else None
+                    blamed = {attribute(sig, trig) for sig, _ in judged}
+                    in_region = next((t for t in TRIGGERS if trig[t] and t not in blamed), None) if None not in blamed else None
                     if not common.same_json(impl_obs(a), model_doc(mo)):
                         res.mismatches.append(Mismatch("document", drop_replay(inp), impl_obs(a), model_doc(mo), trigger=in_region))
                     if fresh is not None and not common.same_json(impl_obs(fresh), model_doc(m_fresh[k])):
@@ -1429,7 +1459,7 @@ def drop_replay(inp: Dict[str, Any]) -> Dict[str, Any]:
 
 
 def run_cases(ctx: Ctx, st: Optional[LeanStatus], res: Result, jobs: List[tuple], label: str) -> None:
-    results = engine.pmap_forked(schema_case, jobs, timeout=600)
+    results = engine.pmap_forked(schema_case, jobs, timeout=3000)
     cases = []
     for (status, val), job in zip(results, jobs):
         if status != "ok":
@@ -1538,7 +1568,6 @@ def run(ctx: Ctx, st: Optional[LeanStatus]) -> Result:
         "expression depth stays far below CPython's recursion limit",
         "python names of fields/arguments are inputs of the generator model (computed with the real process_name / str_to_snake_case; C18 owns them)",
     ]
-    engine.cleanup_scratch() if False else None
     return res
 
 
